@@ -804,6 +804,35 @@ func (vc *VC) compileCall(env *Env, n *SNode) *Val {
 			sfail("ret: %s returns several values; use ret(\"%s\", K, i)", nm, nm)
 		}
 		return v
+	case "atcall":
+		// atcall("Name", K, E): E evaluated in the heap as it was right after the K-th call (source order) to Name
+		// returned (last time it was executed). Use it under a condition that selects the call's path.
+		if len(args) != 3 || args[0].Op != "str" {
+			sfail("atcall: expected atcall(\"Name\", K, E)")
+		}
+		nm, _ := strconv.Unquote(args[0].Tok)
+		kv := vc.compile(env, args[1])
+		if kv.K != KConst {
+			sfail("atcall: the call ordinal must be a constant")
+		}
+		var call *ssa.Call
+		for _, b := range vc.fn.Blocks {
+			for _, ins := range b.Instrs {
+				if c, ok := ins.(*ssa.Call); ok && callName(c.Common()) == nm && int64(vc.callOrdinal(c)) == kv.N.Int64() {
+					call = c
+				}
+			}
+		}
+		if call == nil {
+			sfail("atcall: no call %s#%s in %s", nm, kv.N.String(), vc.fn.Name())
+		}
+		hc := vc.callHeaps[call]
+		if hc == nil {
+			sfail("atcall: call %s#%s has not been executed before this point", nm, kv.N.String())
+		}
+		e2 := *env
+		e2.heap = hc
+		return vc.compile(&e2, args[2])
 	case "athead":
 		// athead(E): E evaluated in the heap at the head of the innermost enclosing loop (current iteration)
 		need(1)
